@@ -90,6 +90,7 @@ func (it *recoveryIterator) next() (record, error) {
 			if err := it.segit.f.Truncate(int64(it.segit.offset)); err != nil {
 				return record{}, err
 			}
+			it.segit.f.size = int64(it.segit.offset)
 			fi, fierr := it.segit.f.Stat()
 			if fierr != nil {
 				return record{}, fierr
